@@ -413,3 +413,15 @@ Theorem legacy_refuted : exists c, valid c /\ oracle c (run_with true c) = false
 Proof. exists w_custom. split; [exact I | vm_compute; reflexivity]. Qed.
 Example w_custom_fixed : run w_custom = [0; 1; W 5; 1] /\ run_with true w_custom = [0; 3; W 2; W 5; W 6; 3].
 Proof. split; vm_compute; reflexivity. Qed.
+
+(* the hypotheses of C31_translate_exact are satisfiable by a case with a non-empty answer, two path
+   elements and the subtype closure in play *)
+Definition ex_path : case :=
+  mk_case [mk_gnode (W 1) 0 9; mk_gnode (W 2) 0 2; mk_gnode (W 3) 0 3; mk_gnode (W 4) 0 3]
+          [(33, 45, 34); (34, 45, 44); (44, 45, 47); (33, 45, 35); (W 1, 35, W 2); (W 2, 47, W 3); (W 2, 40, W 4)]
+          (W 1) (Some [mk_elem 33 false true 0 2; mk_elem 44 false true 0 3]).
+Example ex_path_ok : well_formed ex_path = true /\ translate false ex_path = (0, [W 3]) /\
+                     spec_set ex_path [mk_elem 33 false true 0 2; mk_elem 44 false true 0 3] = [W 3].
+Proof. vm_compute. repeat split; reflexivity. Qed.
+Example ex_reach : reach [(33, 45, 34); (34, 45, 44); (44, 45, 47)] 33 47.
+Proof. apply reach_bounded. apply subtype_search_iff. vm_compute. reflexivity. Qed.
